@@ -180,6 +180,20 @@ PROPS = {
         not_decided=["G2/G3 (sample counts, one fresh sample per job) are bounded only", "statistical adequacy of the estimate"],
         trusted=S_COMMON + T_SOLVER + ["model: np.mean(list) = ghost prefix sum / length"],
     ),
+    "C18": dict(
+        functions=[CT + "Continuum." + m for m in ("to_csv", "from_csv", "__iter__", "add", "__init__")] + [CT + "Unit.__lt__"],
+        oracles=[CT + "Continuum.to_csv"],
+        bounded=[dict(oracle=CT + "Continuum.to_csv",
+                      what="add_textgrid / add_elan / from_rttm / add_annotation are not under contract (third-party parsers): generated TextGrid, "
+                           "ELAN and RTTM files (tier selections, both label modes, empty marks) read back against what was written; csv round trips "
+                           "with delimiters , ; tab |, quotes, unicode, line feeds and carriage returns inside fields; zero-length rows")],
+        design_ref="DESIGN.md section 4 C18 (X1-X5)",
+        not_decided=["the third-party parsers (textgrid, pympi, pyannote.database) and on-disk encodings",
+                     "from_csv(to_csv(c)) == c is the composition of the two proved contracts over the assumed csv model (reader(writer(rows)) == rows)",
+                     "unlabelled units are written as the empty string and read back as the label '' (the statement covers labelled units)"],
+        trusted=S_COMMON + ["model: open / csv.reader / csv.writer / float(str(x)) == x (pyvc/models/csvio.py); its precondition newline='' is an obligation",
+                            "model: sortedcontainers; Continuum.add / __iter__ contracts (proved in C13)"],
+    ),
     "C20": dict(
         functions=[CT + "GammaResults.gamma", CT + "GammaResults.n_samples", CT + "GammaResults.expected_disorder", CT + "GammaResults.observed_disorder",
                    AL + "Alignment.disorder"],
